@@ -7,7 +7,7 @@ from spydrnet.ir.outerpin import OuterPin as BaseOuterPin
 from .universe import Universe
 from . import probes
 
-NAMES = ["a", "b", "A", "ab", "aB", "a_1", "n0", "B", "c", "long_" + "n" * 300]      # (names have no length limit under either policy)
+NAMES = ["a", "b", "A", "ab", "aB", "a_1", "n0", "B", "c", "long_" + "n" * 300, "9a", "a-b"]      # (names have no length limit under either policy)
 BAD_IDS = ["9a", "a-b", "", "x" * 300, "a b", "&", "_a", "caf\u00e9", "a\u0661", "sig\u00b2", "&\u00e9t\u00e9",
            "x" * 256, "&" + "y" * 256]          # (one character beyond the length limits)
 IDS = ["a", "A", "b", "B", "ab", "AB", "&9", "x_1", "&_Q9", "L" + "x" * 254, "&" + "y" * 255]    # (the last two: exactly at the limits)
@@ -126,6 +126,9 @@ class Engine:
             base["clone_small"] = 0
             base["bundle_attr"] = 8
             base["set_reference"] = 8          # re-points: the refusal may come half-way through the re-keying
+            for k in ("set_libraries", "set_definitions", "set_ports", "set_pins", "set_cables", "set_wires", "set_children", "set_wire_pins"):
+                if k in base:
+                    base[k] = max(base[k], 3)      # reorder assignments: a non-permutation may be noticed late
             base["new_shape_sibling"] = 5
             for k in ("remove_libraries_from", "remove_definitions_from", "remove_ports_from", "remove_pins_from", "remove_cables_from",
                       "remove_wires_from", "remove_children_from", "disconnect_pins_from"):
@@ -205,7 +208,7 @@ class Engine:
         L = list(base)
         self.r.shuffle(L)
         if self.invalid():
-            k = self.r.randrange(5)
+            k = self.r.choice([0, 1, 2, 3, 3, 3, 4])
             if k == 4 and len(L) >= 2:
                 L = L[:-1] + [L[0]]         # the right length, one member twice and another one missing
             elif k == 0 and L:
@@ -215,7 +218,8 @@ class Engine:
             elif k == 2 and pool:
                 L = L + [self.pick(pool)]
             elif k == 3 and L and pool:
-                L = L[:-1] + [self.pick(pool)]
+                j_ = self.r.randrange(len(L))
+                L = L[:j_] + [self.pick(pool)] + L[j_ + 1:]      # one member replaced by a foreign element, anywhere in the list
         ids = [id(x) for x in L]
         if len(set(ids)) == len(ids) and sorted(ids) == sorted(id(x) for x in base):
             return L, "valid"
@@ -434,7 +438,7 @@ class Engine:
         p = self._port()
         if p is None:
             return None
-        k = self.r.randint(1, 3)
+        k = self.r.choice([0, 1, 1, 2, 2, 3, 9])       # (a count of zero is a legal request for nothing; nine makes two-digit indices)
         return Op("Port.create_pins", lambda: p.create_pins(k), "create_pins(%d)" % k, "valid", p, (k,))
 
     def op_add_pin(self):
@@ -537,7 +541,7 @@ class Engine:
         c = self.pick(self.u.cables)
         if c is None:
             return None
-        k = self.r.randint(1, 3)
+        k = self.r.choice([0, 1, 1, 2, 2, 3, 9])
         return Op("Cable.create_wires", lambda: c.create_wires(k), "create_wires(%d)" % k, "valid", c, (k,))
 
     def op_add_wire(self):
@@ -582,6 +586,9 @@ class Engine:
         d = self.pick(self.u.defs)
         if d is None:
             return None
+        grown = [x for x in self.u.defs if len(x.children) >= 2]
+        if grown and self.r.random() < 0.4:
+            d = self.pick(grown)        # some definitions grow long child lists (order effects need length)
         nm = self.name() if self.r.random() < 0.8 else None
         ref = self._ref_choice()
         if "create_child_dup_name" in self.fences and nm is not None and any(c.name == nm for c in d.children):
@@ -621,6 +628,9 @@ class Engine:
         d = self.pick(self.u.defs)
         if d is None:
             return None
+        busy = [x for x in self.u.defs if len(x.children) >= 4]
+        if busy and self.r.random() < 0.6:
+            d = self.pick(busy)         # a reorder that goes wrong half-way shows only in lists of some length
         return self._setter(d, "children", "Definition.children=", self.u.insts)
 
     @staticmethod
